@@ -9,6 +9,7 @@ allele (supplied by tidytcells — external; "" when the allele has no such loop
   TcrMetric validation           → isStandardFormat
 -/
 import Prs.Model.Metric
+import Prs.Proofs.LevDP
 namespace Prs
 
 structure TcrRow where
